@@ -51,10 +51,11 @@ def dataWindow (mask : Nat → Nat → Bool) (tiles : List Win) : Option Win :=
 /-- the dataset mask: valid where any band is valid -/
 def anyBand (bands : List (Nat → Nat → Bool)) (r c : Nat) : Bool := bands.any fun b => b r c
 
-/-- the tiles `stats()` reads of a band: those meeting the data window (none when nothing is valid anywhere) -/
+/-- the tiles `stats()` reads of a band: those meeting the data window (all of them when nothing is valid anywhere: the report
+    then holds the figures of empty bands) -/
 def tilesRead (bands : List (Nat → Nat → Bool)) (tiles1 : List Win) (tilesOfBand : List Win) : List Win :=
   match dataWindow (anyBand bands) tiles1 with
-  | none => []
+  | none => tilesOfBand
   | some w => tilesOfBand.filter fun t => w.intersects t
 
 /-- the steps of `_get_data_window` / `stats()` as the source states them -/
